@@ -111,6 +111,8 @@ POSITIONS: dict[str, tuple[str, Any, list]] = {
     "opt": ("Hopt", {"u": "$P"}, ["u"]),                        # u: $ref Pet, not required
     "olist": ("Hopt", {"items": ["$P"]}, ["items", 0]),         # items: inline array, not required
 }
+# the second union of a "pair" document (same variants, reversed order, no discriminator) and where it is used
+PAIR_POSITIONS = [("PetB", "$P"), ("Bfield", {"u": "$P"}), ("Blist", {"items": ["$P"]}), ("Bopt", {"u": "$P"}), ("Bopt", {"items": ["$P"]}), ("Brows", {"rows": [["$P"]]}), ("Bnlist", {"items": ["$P"]})]
 BASE_POSITIONS = ["top", "field", "list"]
 EXTRA_POSITIONS = ["nlist", "nlist_top", "map", "nmap", "rows", "opt", "olist"]
 
@@ -138,6 +140,63 @@ def walk(r: Any, path: list) -> Any:
     return r
 
 
+def member_tokens(t: Any) -> list[str]:
+    """Member order of the union TYPE OBJECT found at a position (class names / Python kinds, None dropped)."""
+    import typing
+
+    if typing.get_origin(t) is typing.Annotated:
+        t = typing.get_args(t)[0]
+    out = []
+    for a in typing.get_args(t):
+        if a is type(None):
+            continue
+        if typing.get_origin(a) is typing.Annotated or typing.get_origin(a) is typing.Union:
+            out += member_tokens(a)
+        elif isinstance(a, type):
+            out.append(a.__name__)
+        else:
+            o = typing.get_origin(a)
+            out.append(getattr(o, "__name__", str(o)))
+    return out
+
+
+def type_at(t: Any, path: list) -> Any:
+    """The type annotation reached from the root type along a position's path."""
+    import typing
+
+    def strip_opt(x: Any) -> Any:
+        if typing.get_origin(x) in (typing.Union, getattr(__import__("types"), "UnionType", None)):
+            non = [a for a in typing.get_args(x) if a is not type(None)]
+            if len(non) == 1:
+                return non[0]
+        return x
+
+    for step in path:
+        t = strip_opt(t)
+        if isinstance(step, int):
+            t = typing.get_args(t)[0]
+        elif dataclasses.is_dataclass(t) and step in {f.name for f in dataclasses.fields(t)}:
+            t = typing.get_type_hints(t, include_extras=True)[step]
+        elif dataclasses.is_dataclass(t):  # generated map wrapper: _data: dict[str, V]
+            t = typing.get_args(typing.get_type_hints(t, include_extras=True)["_data"])[1]
+        else:
+            t = typing.get_args(t)[1]
+    return t
+
+
+def type_order(models: Any, pos: str, want: list[str]) -> str:
+    """"declared" when the union type object at this position lists its members in the document's order, "collapsed"
+    when Python handed out an equal-but-differently-ordered Union built earlier (Union[A, B] == Union[B, A])."""
+    root, _template, path = POSITIONS[pos]
+    try:
+        got = member_tokens(type_at(getattr(models, root), path))
+    except Exception:  # noqa: BLE001
+        return "unknown"
+    if sorted(got) != sorted(want):
+        return "unknown"  # the emitted alias is not member-for-member the document's union (e.g. typed map -> dict[str, Any])
+    return "declared" if got == want else "collapsed"
+
+
 def decode_cases(job: dict, cc: Any, models: Any) -> list[dict]:
     classes = {getattr(models, n): i for n, i in job["names"].items() if hasattr(models, n)}
     res = []
@@ -151,11 +210,12 @@ def decode_cases(job: dict, cc: Any, models: Any) -> list[dict]:
             return err_kind(e)
         return own
 
+    torder = {pos: type_order(models, pos, job["order"]) if job.get("order") else "unknown" for pos in job.get("positions", BASE_POSITIONS)}
     for c in job["cases"]:
         payload = from_tree(c["payload"])
         for pos in job.get("positions", BASE_POSITIONS):
             root, template, path = POSITIONS[pos]
-            out: dict[str, Any] = {"cid": c["cid"], "pos": pos}
+            out: dict[str, Any] = {"cid": c["cid"], "pos": pos, "torder": torder[pos]}
             try:
                 r = walk(cc.structure_from_dict(fill(template, payload), getattr(models, root)), path)
             except Exception as e:  # noqa: BLE001
@@ -194,12 +254,24 @@ def obs_unions(job: dict) -> Any:
     out["fresh"] = decode_cases(job, cc, models)
     sys.modules.pop(core_mod, None)
     cc2 = importlib.import_module(core_mod)
-    other = importlib.import_module(hist["pkg"] + ".models")
-    oalias = getattr(other, hist["alias"])
-    for t in hist["payloads"]:
-        try:
-            cc2.structure_from_dict(from_tree(t), oalias)
-        except Exception:  # noqa: BLE001
-            pass
+    if hist.get("kind", "classes") == "classes":
+        other = importlib.import_module(hist["pkg"] + ".models")
+        oalias = getattr(other, hist["alias"])
+        for t in hist["payloads"]:
+            try:
+                cc2.structure_from_dict(from_tree(t), oalias)
+            except Exception:  # noqa: BLE001
+                pass
+    else:
+        # kind "perm": the SAME document declares a second union (Pet2) over the same variant schemas in reversed
+        # order; it is decoded first - as a root, a field, an array item and an optional field - then Pet
+        roots = {root: getattr(models, root) for root, _ in PAIR_POSITIONS}  # a missing schema is an observer error
+        for c in job["cases"]:
+            payload = from_tree(c["payload"])
+            for root, template in PAIR_POSITIONS:
+                try:
+                    cc2.structure_from_dict(fill(template, payload), roots[root])
+                except Exception:  # noqa: BLE001
+                    pass
     out["res"] = decode_cases(job, cc2, models)
     return out
